@@ -17,6 +17,11 @@ import CB.Model.ModArith
 import CB.Model.Sqrt
 import CB.Model.Div
 import CB.Model.Gcd
+import CB.Model.Int
+import CB.Model.IntDiv
+import CB.Model.Encoding
+import CB.Model.Radix
+import CB.Driver.C19
 namespace CB
 namespace D15
 open CB CB.Cmp CB.AddSub
@@ -533,6 +538,115 @@ def invFam (name : String) (n a p : Nat) : Option String :=
          (pLen (Gcd.boxedGcdVartime (toLimbs n a) (toLimbs n p)), hl g)]
   | _ => none
 
+
+/-- signed reading / two's complement encoding of `n`-limb patterns -/
+def sInt (n a : Nat) : Int := if 2 * a ≥ B ^ n then (a : Int) - (B ^ n : Nat) else (a : Int)
+def encI (n : Nat) (x : Int) : String := natToHex ((x % ((B ^ n : Nat) : Int)).toNat)
+def fitsI (n : Nat) (x : Int) : Bool := decide (-(((B ^ n / 2 : Nat) : Int)) ≤ x) && decide (x < ((B ^ n / 2 : Nat) : Int))
+
+/-- `c15.i.<family> n a [b | s]`: `Int<n>` routes (models of C13 / C14 / C05 / C06) -/
+def intFam (name : String) (n a b : Nat) : Option String :=
+  let x := toLimbs n a; let y := toLimbs n b
+  let K := B ^ n
+  let bits := 64 * n
+  let h := natToHex
+  let sa := sInt n a; let sb := sInt n b
+  let opt (x : Int) : String := if fitsI n x then encI n x else "none"
+  let pan (x : Int) : String := if fitsI n x then encI n x else "panic"
+  match name with
+  | "add" =>
+    let s := h ((a + b) % K)
+    fam (rep 8 (limbsHex (SInt.iWrappingAdd x y), s) ++ [(limbsHex (SInt.iOverflowingAdd x y).1, s)])
+  | "sub" => fam (rep 7 (limbsHex (SInt.iWrappingSub x y), h ((a + K - b % K) % K)))
+  | "cadd" =>
+    let c := SInt.iCheckedAdd x y
+    fam (rep 8 (mHex c, opt (sa + sb)) ++ rep 4 (xHex c, pan (sa + sb)))
+  | "csub" =>
+    let c := SInt.iCheckedSub x y
+    fam (rep 7 (mHex c, opt (sa - sb)) ++ rep 2 (xHex c, pan (sa - sb)))
+  | "cmul" =>
+    let c := SInt.iCheckedMul x y
+    fam (rep 7 (mHex c, opt (sa * sb)) ++ rep 4 (xHex c, pan (sa * sb)))
+  | "neg" =>
+    let s := h ((K - a % K) % K)
+    fam [(limbsHex (SInt.iWrappingNeg x), s), (limbsHex (SInt.iOverflowingNeg x).1, s),
+         (limbsHex (SInt.iWrappingNegIf x WMAX), s), (limbsHex (SInt.iWrappingSub (uzero n) x), s)]
+  | "cmp" =>
+    let o := ordTok (if sa < sb then -1 else if sa = sb then 0 else 1)
+    let fromCt (lt gt : Nat) : String := if lt = WMAX then "lt" else if gt = WMAX then "gt" else "eq"
+    fam [(ordTok (icmp x y), o), (ordTok (icmp x y), o), (ordTok (icmpVartime x y), o), (ordTok (-(icmp y x)), o),
+         (fromCt (ilt x y) (igt x y), o)]
+  | "shr" =>
+    let s := b
+    let e := if s < bits then encI n (sa / ((2 ^ s : Nat) : Int)) else "panic"
+    fam ([(pHex (Shift.intShr x s), e), (pHex (Shift.intShrVartime x s), e)] ++ rep 5 (pHex (Shift.intShr x s), e))
+  | "wshr" =>
+    let s := b
+    let e := if s < bits then encI n (sa / ((2 ^ s : Nat) : Int)) else (if sa < 0 then h (K - 1) else "0")
+    fam [(pHex (Shift.intWrappingShr x s), e), (limbsHex (Shift.intWrappingShrVartime x s), e),
+         (pHex (Shift.intWrappingShr x s), e), (pHex (Shift.intWrappingShr x s), e)]
+  | "div" =>
+    if b % K = 0 then badArgs else
+    let r := IntDiv.iCheckedDivRem x y
+    let q0 := Int.tdiv sa sb; let r0 := Int.tmod sa sb
+    let l1 := s!"{mHex r.1} {limbsHex r.2}"
+    let l0 := s!"{opt q0} {encI n r0}"
+    fam (rep 9 (l1, l0) ++ rep 3 (xHex r.1, pan q0) ++ [(mHex r.1, opt q0)])
+  | _ => none
+
+def asciiStr (cs : List Nat) : String := String.ofList (cs.map Char.ofNat)
+def lowerAscii (cs : List Nat) : List Nat := cs.map fun c => if 65 ≤ c ∧ c ≤ 90 then c + 32 else c
+
+/-- `c15.enc n a`, `c15.dec n x<8n bytes big endian>`, `c15.radix n a r`, `c15.rand n m x<stream>` -/
+def encFam (n a : Nat) : Option String :=
+  let l := toLimbs n a
+  let be := bytesToTok (Encoding.uintToBeBytes l)
+  let ler := bytesToTok (Encoding.uintToLeBytes l).reverse
+  let e := bytesToTok (Encoding.specBeBytes (8 * n) a)
+  let t := asciiStr (Encoding.specHexText false (16 * n) a)
+  fam [(be, e), (ler, e), (be, e), (ler, e), (be, e), (ler, e),
+       (asciiStr (Encoding.fmtHex false false l), t), (asciiStr (lowerAscii (Encoding.fmtHex true false l)), t),
+       (asciiStr (Encoding.boxedFmtHex false false l), t), (asciiStr (lowerAscii (Encoding.boxedFmtHex true false l)), t),
+       (asciiStr (Encoding.fmtHex false false l), t)]
+
+def decFam (n : Nat) (be : List Nat) : Option String :=
+  if be.length ≠ 8 * n then badArgs else
+  let le := be.reverse
+  let v := Encoding.beVal be
+  let h := natToHex
+  let hexOf (bs : List Nat) : List Nat := (bs.map fun b => [Encoding.hexChar false (b / 16), Encoding.hexChar false (b % 16)]).flatten
+  let o (r : Option (List Nat)) : String := match r with | some l => limbsHex l | none => "panic"
+  let bx (r : Except Encoding.DecodeError (List Nat)) : String :=
+    match r with | .ok l => limbsHexLen l | .error e => s!"err:{e.name}"
+  fam [(o (Encoding.fromBeSlice n be), h v), (o (Encoding.fromLeSlice n le), h v),
+       (o (Encoding.fromBeSlice n be), h v), (o (Encoding.fromLeSlice n le), h v),
+       (o (Encoding.fromBeHex n (hexOf be)), h v), (o (Encoding.fromLeHex n (hexOf le)), h v),
+       (o (Encoding.fromBeSlice n be), h v), (o (Encoding.fromLeSlice n le), h v),
+       (bx (Encoding.boxedFromBeSlice be (64 * n)), lenHex n v), (bx (Encoding.boxedFromLeSlice le (64 * n)), lenHex n v)]
+
+def radixFam (n a r : Nat) : Option String :=
+  let l := toLimbs n a
+  let enc : String := match Radix.encodeToString r l with | .ok cs => bytesToTok cs | .error _ => "panic"
+  let e := bytesToTok (Radix.specFormat r a)
+  -- the text handed to both parsers is what the fixed encoder produced
+  let back (boxed : Bool) : String :=
+    match Radix.encodeToString r l with
+    | .ok cs =>
+      if boxed then (match Radix.boxedFromStrPrec r (64 * n) cs with | .ok v => limbsHexLen v | .error _ => "err")
+      else (match Radix.uintFromStr n r cs with | .ok v => limbsHex v | .error _ => "err")
+    | .error _ => "panic"
+  fam [(enc, e), (enc, e), (back false, natToHex a), (back true, lenHex n a)]
+
+open CB.Rand in
+def randFam (n m : Nat) (bs : List Nat) : Option String :=
+  if m = 0 ∨ n = 0 then badArgs else
+  let ml := toLimbs n m
+  let u (mode : ErrMode) := showOut mode limbsHex (uintRandomMod (fuelFor bs) (rng0 bs) ml)
+  let b (mode : ErrMode) := showOut mode limbsHexLen (boxedRandomMod (fuelFor bs) (rng0 bs) ml)
+  fam [(u .exhausted, specModLine .exhausted natToHex m bs), (u .exhausted, specModLine .exhausted natToHex m bs),
+       (u .tryErr, specModLine .tryErr natToHex m bs),
+       (b .exhausted, specModLine .exhausted (boxedLen n) m bs), (b .tryErr, specModLine .tryErr (boxedLen n) m bs)]
+
 /-- `c15.l.<family>`: `Limb` routes next to `U64` -/
 def limbFam (name : String) (vs : List Nat) : Option String :=
   let h := natToHex
@@ -683,6 +797,30 @@ def dispatchC15 : Dispatch := fun op args =>
     | some vs => limbFam name vs
     | none => badArgs
   | ["c15", "const", name], vs => constFam name vs
+  | ["c15", "i", name], [n, a] =>
+    match n.toNat?, hexToNat? a with
+    | some n, some a => intFam name n a 0
+    | _, _ => badArgs
+  | ["c15", "i", name], [n, a, b] =>
+    match n.toNat?, hexToNat? a, (if name = "shr" ∨ name = "wshr" then b.toNat? else hexToNat? b) with
+    | some n, some a, some b => intFam name n a b
+    | _, _, _ => badArgs
+  | ["c15", "enc"], [n, a] =>
+    match n.toNat?, hexToNat? a with
+    | some n, some a => encFam n a
+    | _, _ => badArgs
+  | ["c15", "dec"], [n, bs] =>
+    match n.toNat?, tokToBytes? bs with
+    | some n, some bs => decFam n bs
+    | _, _ => badArgs
+  | ["c15", "radix"], [n, a, r] =>
+    match n.toNat?, hexToNat? a, r.toNat? with
+    | some n, some a, some r => radixFam n a r
+    | _, _, _ => badArgs
+  | ["c15", "rand"], [n, m, st] =>
+    match n.toNat?, hexToNat? m, tokToBytes? st with
+    | some n, some m, some bs => randFam n m bs
+    | _, _, _ => badArgs
   | ["c15", "bm", name], [na, a, nb, b] =>
     match na.toNat?, hexToNat? a, nb.toNat?, hexToNat? b with
     | some na, some a, some nb, some b => mixedFam name na a nb b
